@@ -706,16 +706,28 @@ PendLegit(p) ==
   \/ /\ p.op = "hdr"
      /\ ~CtxDone(c) /\ ~CreadSeen /\ ~k.sendFailed /\ x.n = 0
 
+NLiveUnary == Cardinality({v \in live : v.kind = "unary"})
+\* By design the server's read loop waits, head of line, for a free unary worker (8) or for a live stream
+\* handler that is not receiving; while it waits it does not read, so a failing transport read has not happened yet.
+SrvHol == \/ NLiveUnary >= 8 /\ preq # <<>>                      \* a request it has read waits for a worker
+          \/ \E v \in live : /\ v.kind # "unary" /\ v.in # "recv" /\ v.h \in DOMAIN hnds
+                              \* one envelope fits the stream's queue, the next one is in the read loop's hand
+                              /\ Len(Sin(hnds[v.h].id).items) - hnds[v.h].nrecv >= 2
+SrvDownSeen == flt \cap {"swfail", "stop", "serveret"} # {} \/ phase # "run" \/ ("sread" \in flt /\ ~SrvHol)
+\* a cause that MUST have cancelled handler h's context by now
+HCauseSeen(h) == \/ hnds[h].rst
+                 \/ SrvDownSeen
+                 \/ hnds[h].dl >= 0 /\ T >= hnds[h].dl
+
 LiveLegit(v) ==
   LET h == v.h IN
   /\ h \in DOMAIN hnds
-  /\ G("ctx", v.res = "live" => ~HCause(h))                         \* C07 / C10: cancelled with its cause
+  /\ G("ctx", v.res = "live" => ~HCauseSeen(h))                     \* C07 / C10: cancelled with its cause
   /\ G("pend", v.in = "recv" => /\ v.res = "live"                   \* blocked calls unblock on the context
                                 /\ hnds[h].nrecv = Len(Sin(hnds[h].id).items)) \* and on data
   /\ G("pend", v.in = "send" => Stuck)
   /\ G("pend", v.in = "ctxwait" => v.res = "live")
 
-NLiveUnary == Cardinality({v \in live : v.kind = "unary"})
 Idle == /\ \A c \in DOMAIN calls : ClientFinished(c)
         /\ \A h \in DOMAIN hnds : hnds[h].ret
         /\ preq = <<>>
@@ -740,7 +752,7 @@ Quiesce(ngor, nsrv, unreadS, unreadC) ==
         (calls[c].kind # "unary" /\ calls[c].opened = "ok" /\ CtxDone(c) /\ phase = "run"
          /\ Cin(calls[c].id).close = "" /\ ~Cin(calls[c].id).mayRst /\ ~CliDown /\ ~Stuck) => calls[c].rstW)
   \* Serve has returned if its connection ended and no scripted handler holds it (C10)
-  /\ G("serve", (flt \cap {"sread", "swfail", "stop"} # {} /\ ~Stuck
+  /\ G("serve", ((flt \cap {"swfail", "stop"} # {} \/ ("sread" \in flt /\ ~SrvHol)) /\ ~Stuck
         /\ \A v \in live : v.kind = "unary" \/ v.in \notin {"idle", "sleep"}) => "serveret" \in flt)
   \* registries (C14)
   /\ G("reg", cregN >= 0 => cregN = Cardinality(creg))
